@@ -324,6 +324,24 @@ def run(repo: Repo, L: Ledger, tier: str):
         # Gap tests that are not the test of a recognised inward walk: stripping done some other way (next(<generator>), helper ...)
         walk_tests = {id(c) for w in (recognised_walks if len(slices) == 1 and isinstance(slices[0].slice.lower, ast.Name) else []) for c in ast.walk(w.test)}
         other_gap_tests = [c for c in gap_tests if id(c) not in walk_tests]
+        # positive refutation: the walk of a slice index is there but as a single conditional step (`if`, not `while`) -- it
+        # passes one Gap row, and the rows of an input scaffold may hold several in a row
+        single_step = {}
+        if missing:
+            from ..util import ancestors as _anc0
+
+            for w in walk_shallow(find.node):
+                if isinstance(w, ast.If) and not w.orelse and len(w.body) == 1 and pos(w) < pos(slices[0]) and not any(isinstance(a_, ast.While | ast.For) for a_ in _anc0(w)):
+                    t = norm(w.test).replace(" ", "")
+                    for var, d in ((lo, 1), (hi, -1)):
+                        mv = w.body[0]
+                        if var in missing and f"isinstance({rows_txt}[{var}],Gap)" in t and isinstance(mv, ast.AugAssign) and is_name(mv.target, var) and isinstance(mv.op, ast.Add if d == 1 else ast.Sub) and try_fold(mv.value, default=None) == 1:
+                            single_step[var] = w
+            step_tests = {id(c) for w in single_step.values() for c in ast.walk(w.test)}
+            if single_step and set(single_step) == set(missing) and not [c for c in other_gap_tests if id(c) not in step_tests] and not any(mention(c, v) for v in missing for c in helper_calls):
+                other_gap_tests = []
+                gap_tests = [c for c in gap_tests if id(c) not in step_tests]
+                why4 = f"index {sorted(single_step)} is moved past one Gap row only (`if` at line {', '.join(str(w.lineno) for w in single_step.values())}, not a loop): with two gap rows in a row at that end of the overlapping span the returned result starts or ends with a gap row"
         unclear = "not found" in why4 or not missing or bool(other_gap_tests) or any(mention(c, v) for v in missing for c in [*gap_tests, *helper_calls])
         # the refutation "nothing strips gaps" presumes an index with one entry per row: an index built from the non-gap rows
         # only (or of another layout) makes every index position a contig already
